@@ -25,7 +25,9 @@ Consume ==
            b1 == IF r[6] >= 262144 \/ r[5] < 1 THEN {"LogicalFits"} ELSE {}
            b2 == IF \E h \in hist : h[1] = r[1] /\ h[8] = r[8] /\ h[7] # r[7] THEN {"SuffixStable"} ELSE {}
            b3 == IF \E h \in hist : h[1] # r[1] /\ h[8] = r[8] /\ h[7] = r[7] THEN {"SuffixUniqueAndWideEnough"} ELSE {}
-           b4 == IF r[1] = "global" /\ r[7] # 0 THEN {"SuffixUniqueAndWideEnough"} ELSE {}
+           b4 == (IF r[1] = "global" /\ r[7] # 0 THEN {"SuffixUniqueAndWideEnough"} ELSE {})
+                 \* after a later datacenter was given its suffix, every timestamp reports a width that covers it
+                 \cup (IF ev.bits < ev.need_bits THEN {"SuffixUniqueAndWideEnough"} ELSE {})
            same(h) == h[4] = r[4] /\ h[7] = r[7] /\ h[8] = r[8] /\ ~(h[6] < r[5] \/ r[6] < h[5])     \* some value in common
            b5 == (IF \E h \in hist : h[1] # r[1] /\ same(h) THEN {"NeverEqual"} ELSE {})
                  \cup (IF \E h \in hist : h[1] = r[1] /\ same(h) /\ r[1] # "global" THEN {"UniqueWithinAllocator"} ELSE {})
